@@ -51,7 +51,7 @@ type c15World struct {
 }
 
 var c15OpNames = [...]string{"generate", "chat", "embed", "embeddings", "ps", "tags", "show", "create", "copy", "delete", "blob-upload", "blob-head",
-	"unload-or-load", "v1-chat", "v1-models", "v1-embeddings", "version"}
+	"unload-or-load", "v1-chat", "v1-models", "v1-embeddings", "version", "pull", "push"}
 
 // Harness bookkeeping shared between tasks lives in arrays touched from
 // //go:norace functions (no maps, no growing slices): it must not appear in race
@@ -272,7 +272,14 @@ func (cw *c15World) op(client int) {
 		}
 		cw.count("unload-or-load", r.code)
 	default: // OpenAI-compatible endpoints and the rest
-		switch d("v1", 4) {
+		switch d("v1", 6) {
+		case 4:
+			// the registry is unreachable: exercises the pull handler, its goroutine and the error path
+			r := cw.apiJSON(ctx, "POST", "/api/pull", api.PullRequest{Model: "registry.sim/library/" + name, Stream: boolp(d("stream", 2) == 0)})
+			cw.count("pull", r.code)
+		case 5:
+			r := cw.apiJSON(ctx, "POST", "/api/push", api.PushRequest{Model: name, Stream: boolp(d("stream", 2) == 0)})
+			cw.count("push", r.code)
 		case 0:
 			req := openai.ChatCompletionRequest{Model: name, Stream: d("stream", 2) == 0, Messages: []openai.Message{{Role: "user", Content: "hello"}}}
 			r := cw.apiJSON(ctx, "POST", "/v1/chat/completions", req)
